@@ -558,35 +558,47 @@ func Mutations(s *Schema, d *Doc) []*Mutation {
 			ins(RFragCycles, "one fragment spread twice (control)", true, "same fragment spread twice", func() ([]*Selection, []*Fragment) {
 				return []*Selection{NewSpread("CH1"), NewSpread("CH1")}, []*Fragment{{Name: "CH1", TypeCond: parent, Sel: tn()}}
 			})
-			// 5.5.2.3: at most one object and one abstract type on each side
+			// 5.5.2.3. Abstract parent: EVERY other abstract type as type condition (every ordered pair of abstract
+			// types; valid iff the sets of possible object types intersect) plus one object type on each side.
+			// Object parent: one type of each kind (object, interface, union) on each side.
 			seenImp, seenOv := map[string]bool{}, map[string]bool{}
+			parentAbstract := pdef.IsAbstractType()
 			for _, x := range s.Composites() {
 				x := x
 				xk := s.kindOf(x)
-				cat := "abstract"
-				if xk == "object" {
-					cat = "object"
+				if x == parent {
+					continue
 				}
+				all := parentAbstract && xk != "object"
 				if !s.Overlap(parent, x) {
-					if seenImp[cat] {
+					if seenImp[xk] && !all {
 						continue
 					}
-					seenImp[cat] = true
+					seenImp[xk] = true
 					ins(RSpreadPossible, "inline fragment on impossible type", false, "inline fragment on "+xk+" that can never apply inside "+pk, func() ([]*Selection, []*Fragment) {
 						return []*Selection{NewInline(x, tn()...)}, nil
 					})
 					ins(RSpreadPossible, "named fragment on impossible type", false, "spread of fragment on "+xk+" that can never apply inside "+pk, func() ([]*Selection, []*Fragment) {
 						return []*Selection{NewSpread("IM1")}, []*Fragment{{Name: "IM1", TypeCond: x, Sel: tn()}}
 					})
-				} else if x != parent {
-					if seenOv[cat] {
+				} else {
+					if seenOv[xk] && !all {
 						continue
 					}
-					seenOv[cat] = true
-					ins(RSpreadPossible, "inline fragment on overlapping type (control)", true, "inline fragment on overlapping "+xk+" inside "+pk, func() ([]*Selection, []*Fragment) {
+					seenOv[xk] = true
+					common := "several common possible types"
+					if s.commonPossible(parent, x) == 1 {
+						common = "exactly one common possible type"
+					}
+					if xk == "object" || !parentAbstract {
+						common = ""
+					} else {
+						common = " (" + common + ")"
+					}
+					ins(RSpreadPossible, "inline fragment on overlapping type (control)", true, "inline fragment on overlapping "+xk+" inside "+pk+common, func() ([]*Selection, []*Fragment) {
 						return []*Selection{NewInline(x, tn()...)}, nil
 					})
-					ins(RSpreadPossible, "named fragment on overlapping type (control)", true, "spread of fragment on overlapping "+xk+" inside "+pk, func() ([]*Selection, []*Fragment) {
+					ins(RSpreadPossible, "named fragment on overlapping type (control)", true, "spread of fragment on overlapping "+xk+" inside "+pk+common, func() ([]*Selection, []*Fragment) {
 						return []*Selection{NewSpread("PO1")}, []*Fragment{{Name: "PO1", TypeCond: x, Sel: tn()}}
 					})
 				}
